@@ -1,7 +1,7 @@
 (** * HTLC: the C12 invariant derived from the message-level model (Htlc/Model.v, Htlc/Proofs.v).
 
     The histories are those of the htlc group's theorems: any operations from genesis WITHOUT parameter
-    changes ([wf_op]; a MsgUpdateParams can make the exported genesis un-importable: known finding, clause 7
+    changes ([wf0]; a MsgUpdateParams can make the exported genesis un-importable: known finding, clause 7
     of Genesis/Htlc.v).  From their [Inv] (contracts well-formed, the three supply counters = the sums over
     the open transfers, limits respected, queue <-> open contracts) and [Strict], plus a small invariant [J]
     proved here over their step function (height >= 1; a stored contract has valid coins; a transfer is on an
@@ -13,7 +13,7 @@
     through the parameters (one record per supported asset, [get] at its denom): that the store holds no
     record of an unsupported denom is NOT derived (the message model's [Inv] does not say it; the harness
     compares the real store with the genesis-level state in every case).
-    One hypothesis on the history beyond [wf_op]: a transfer's timestamp is not 0 ([ts_ok]); the code rejects
+    One hypothesis on the history beyond [wf0]: a transfer's timestamp is not 0 ([ts_ok]); the code rejects
     a timestamp more than 15 minutes before the block time, and block times are far from the epoch. *)
 From Irismod Require Import Genesis.Sort.
 From Irismod Require Htlc.Model Htlc.Proofs Genesis.Htlc Genesis.HtlcProofs.
@@ -27,6 +27,42 @@ Module GP := Irismod.Genesis.HtlcProofs.
 (** ** Part 1: the extra invariant over the message-level steps *)
 Definition ts_ok (o : M.op) : Prop :=
   match o with M.Create m => M.m_transfer m = true -> M.m_ts m <> 0 | _ => True end.
+
+(** the histories of this file: NO parameter change (a [SetParams] step, accepted or not, is excluded — this implies
+    the htlc group's run-dependent [wf_run], which allows compatible changes); the signer of a create message is
+    not a module account *)
+Definition wf0 (o : M.op) : Prop :=
+  match o with
+  | M.Create m => M.m_sender m <> M.ESC /\ M.m_sender m <> M.BLK
+  | M.SetParams _ _ => False
+  | _ => True
+  end.
+
+Lemma wf0_wf s o : wf0 o -> MP.wf_op s o.
+Proof. destruct o; simpl; tauto. Qed.
+
+Lemma wf0_params s o : wf0 o -> MP.params_after s o = M.st_params s.
+Proof. destruct o; simpl; tauto. Qed.
+
+Lemma wf0_run ops : forall s, Forall wf0 ops -> MP.wf_run s ops.
+Proof.
+  induction ops as [|o ops IH]; intros s W; simpl; [exact Logic.I|]. inversion W as [|? ? Wo Wops]; subst.
+  split; [apply wf0_wf; exact Wo|apply IH; exact Wops].
+Qed.
+
+Lemma run0 : forall ops s, MP.Inv s -> MP.Strict s -> Forall wf0 ops ->
+  MP.Inv (M.run s ops) /\ MP.Strict (M.run s ops) /\ M.st_params (M.run s ops) = M.st_params s.
+Proof.
+  unfold M.run. induction ops as [|o ops IH]; intros s I S W; simpl; [auto|].
+  inversion W as [|? ? Wo Wops]; subst. destruct (MP.step_inv s o I S (wf0_wf s o Wo)) as (I1 & S1 & P1).
+  destruct (IH _ I1 S1 Wops) as (I2 & S2 & P2). rewrite P2, P1, (wf0_params s o Wo). auto.
+Qed.
+
+Lemma reach0 P b t0 ops : MP.params_ok P -> MP.escrow_empty b -> Forall wf0 ops ->
+  MP.Inv (MP.reachable P b t0 ops) /\ MP.Strict (MP.reachable P b t0 ops) /\ M.st_params (MP.reachable P b t0 ops) = P.
+Proof.
+  intros HP HE W. destruct (MP.init_inv P b t0 HP HE) as [I S]. exact (run0 ops _ I S W).
+Qed.
 
 Definition good (P : list M.aparam) (c : M.contract) : Prop :=
   M.coins_valid (M.c_amount c) = true
@@ -72,20 +108,20 @@ Proof.
   destruct (MP.begin_block_spec s dt I S) as (I1 & S1 & Hh & _). specialize (IH _ I1 S1). lia.
 Qed.
 
-Lemma height_step s o : MP.Inv s -> MP.Strict s -> MP.wf_op o -> M.st_height s <= M.st_height (M.step s o).
+Lemma height_step s o : MP.Inv s -> MP.Strict s -> wf0 o -> M.st_height s <= M.st_height (M.step s o).
 Proof.
-  intros I S W. unfold M.step. destruct o as [m|who id secret|dts|gw gP]; simpl.
+  intros I S W0. pose proof (wf0_wf s o W0) as W. unfold M.step. destruct o as [m|who id secret|dts|gw gP]; simpl.
   - destruct (M.create s m) as [s'|] eqn:Hc; [|lia]. destruct (MP.create_open_rel s m s' I W Hc) as (dr & R).
     rewrite (MP.or_height _ _ _ _ R). lia.
   - pose proof (MP.claim_spec s who id secret I) as Hs. destruct (M.claim s who id secret) as [s'|]; [|lia].
     destruct Hs as (_ & c0 & _ & _ & _ & R). rewrite (MP.cr_height _ _ _ _ _ R). lia.
   - apply adv_height; assumption.
-  - destruct W.
+  - destruct W0.
 Qed.
 
-Lemma J_step P s o : MP.Inv s -> MP.Strict s -> MP.wf_op o -> ts_ok o -> M.st_params s = P -> J P s -> J P (M.step s o).
+Lemma J_step P s o : MP.Inv s -> MP.Strict s -> wf0 o -> ts_ok o -> M.st_params s = P -> J P s -> J P (M.step s o).
 Proof.
-  intros I S W T HP [Hh Hc]. split; [pose proof (height_step s o I S W); lia|].
+  intros I S W0 T HP [Hh Hc]. pose proof (wf0_wf s o W0) as W. split; [pose proof (height_step s o I S W0); lia|].
   intros id c Hg. destruct (get id (M.st_contracts s)) as [c0|] eqn:Hg0.
   - destruct (MP.step_contract s o I S W id c0 Hg0) as (c' & Hg' & Hor). rewrite Hg in Hg'. inversion Hg'; subst c'.
     destruct Hor as [->|(_ & st & h & _ & ->)]; exact (Hc id c0 Hg0).
@@ -97,16 +133,16 @@ Proof.
     split; [exact (create_basic_coins m Hb)|]. intros Htr. split; [exact (T Htr)|]. rewrite <- HP. exact (Ht Htr).
 Qed.
 
-Lemma J_run P : forall ops s, MP.Inv s -> MP.Strict s -> Forall MP.wf_op ops -> Forall ts_ok ops ->
+Lemma J_run P : forall ops s, MP.Inv s -> MP.Strict s -> Forall wf0 ops -> Forall ts_ok ops ->
   M.st_params s = P -> J P s -> J P (M.run s ops).
 Proof.
   unfold M.run. induction ops as [|o ops IH]; intros s I S W T HP Hj; simpl; [exact Hj|].
   inversion W as [|? ? Wo Wops]; subst. inversion T as [|? ? To Tops]; subst.
-  destruct (MP.step_inv s o I S Wo) as (I1 & S1 & P1).
+  destruct (MP.step_inv s o I S (wf0_wf s o Wo)) as (I1 & S1 & P1). rewrite (wf0_params s o Wo) in P1.
   apply IH; first [assumption | congruence | (apply J_step; first [assumption | congruence])].
 Qed.
 
-Lemma J_reach P b t0 ops : MP.params_ok P -> MP.escrow_empty b -> Forall MP.wf_op ops -> Forall ts_ok ops ->
+Lemma J_reach P b t0 ops : MP.params_ok P -> MP.escrow_empty b -> Forall wf0 ops -> Forall ts_ok ops ->
   J P (MP.reachable P b t0 ops).
 Proof.
   intros HP HE W T. destruct (MP.init_inv P b t0 HP HE) as [I S]. unfold MP.reachable.
@@ -425,27 +461,27 @@ Section Hist.
   Variable ops : list M.op.
   Hypothesis HPv : M.params_valid P = true.
   Hypothesis HE : MP.escrow_empty b.
-  Hypothesis HW : Forall MP.wf_op ops.
+  Hypothesis HW : Forall wf0 ops.
   Hypothesis HT : Forall ts_ok ops.
   Let s := MP.reachable P b t0 ops.
   Hypothesis rk_inj : inj_on rk (map fst (M.st_contracts s)).
 
   Theorem reachable_htlc : G.invb true (abs_o rk hl rs oth s) = true.
   Proof.
-    destruct (MP.reach_inv P b t0 ops (params_valid_ok P HPv) HE HW) as (I & S & HPs).
+    destruct (reach0 P b t0 ops (params_valid_ok P HPv) HE HW) as (I & S & HPs).
     exact (reachable_htlc_o rk hl rs oth oth_ok P s rk_inj I S (J_reach P b t0 ops (params_valid_ok P HPv) HE HW HT) HPs HPv).
   Qed.
 
   Theorem htlc_history_export_validates : G.validate true (G.export (abs rk hl rs oth s)) = true.
   Proof.
-    destruct (MP.reach_inv P b t0 ops (params_valid_ok P HPv) HE HW) as (I & _ & _).
+    destruct (reach0 P b t0 ops (params_valid_ok P HPv) HE HW) as (I & _ & _).
     rewrite (export_abs rk hl rs oth s rk_inj I). apply GP.htlc_export_validates_lemma. exact reachable_htlc.
   Qed.
 
   Theorem htlc_history_roundtrip :
     G.import true (G.export (abs rk hl rs oth s)) = Some (GP.norm (abs rk hl rs oth s)).
   Proof.
-    destruct (MP.reach_inv P b t0 ops (params_valid_ok P HPv) HE HW) as (I & _ & _).
+    destruct (reach0 P b t0 ops (params_valid_ok P HPv) HE HW) as (I & _ & _).
     rewrite (export_abs rk hl rs oth s rk_inj I), (norm_abs rk hl rs oth s rk_inj I). apply GP.htlc_roundtrip. exact reachable_htlc.
   Qed.
 
@@ -486,7 +522,7 @@ Definition ex_abs := abs ex_rk (fun h => fst h) (fun x => x + 1) (fun _ => (0, 0
 
 Example link_htlc_nonvacuous :
   let s := MP.reachable ex_P ex_B (1700000000 * M.ns) ex_ops in
-  M.params_valid ex_P = true /\ MP.escrow_empty ex_B /\ Forall MP.wf_op ex_ops /\ Forall ts_ok ex_ops
+  M.params_valid ex_P = true /\ MP.escrow_empty ex_B /\ Forall wf0 ex_ops /\ Forall ts_ok ex_ops
   /\ inj_on ex_rk (map fst (M.st_contracts s))
   /\ length (G.htlcs (ex_abs s)) = 4%nat /\ length (G.g_htlcs (G.export (ex_abs s))) = 2%nat
   /\ map (fun e => G.s_current (snd e)) (G.supplies (ex_abs s)) = [(0, 200)]
@@ -569,12 +605,12 @@ End Queue.
     contracts (ExportGenesis drops them, documented), queue included *)
 Theorem htlc_history_import_is_open_part rk hl rs oth :
   (forall id, fst (oth id) <= 128 /\ snd (oth id) <= 128) ->
-  forall P b t0 ops, M.params_valid P = true -> MP.escrow_empty b -> Forall MP.wf_op ops -> Forall ts_ok ops ->
+  forall P b t0 ops, M.params_valid P = true -> MP.escrow_empty b -> Forall wf0 ops -> Forall ts_ok ops ->
   inj_on rk (map fst (M.st_contracts (MP.reachable P b t0 ops))) ->
   G.import true (G.export (abs rk hl rs oth (MP.reachable P b t0 ops))) = Some (abs_o rk hl rs oth (MP.reachable P b t0 ops)).
 Proof.
   intros Hoth P b t0 ops HPv HE HW HT Hinj.
-  destruct (MP.reach_inv P b t0 ops (params_valid_ok P HPv) HE HW) as (I & _ & _).
+  destruct (reach0 P b t0 ops (params_valid_ok P HPv) HE HW) as (I & _ & _).
   rewrite (htlc_history_roundtrip rk hl rs oth Hoth P b t0 ops HPv HE HW HT Hinj).
   rewrite (norm_abs_o rk hl rs oth _ Hinj I). reflexivity.
 Qed.
@@ -584,7 +620,7 @@ Qed.
     the prepared state; the extra hypothesis is the uint64 range of the expiration heights *)
 Theorem htlc_history_prep rk hl rs oth :
   (forall id, fst (oth id) <= 128 /\ snd (oth id) <= 128) ->
-  forall P b t0 ops, M.params_valid P = true -> MP.escrow_empty b -> Forall MP.wf_op ops -> Forall ts_ok ops ->
+  forall P b t0 ops, M.params_valid P = true -> MP.escrow_empty b -> Forall wf0 ops -> Forall ts_ok ops ->
   let s := MP.reachable P b t0 ops in
   inj_on rk (map fst (M.st_contracts s)) ->
   (forall id c, In (id, c) (M.st_contracts s) -> M.c_exp c < G.two64) ->
@@ -592,7 +628,7 @@ Theorem htlc_history_prep rk hl rs oth :
   /\ G.import true (G.export (G.prep (M.st_height s) (abs_o rk hl rs oth s))) <> None.
 Proof.
   intros Hoth P b t0 ops HPv HE HW HT s Hinj Hexp.
-  destruct (MP.reach_inv P b t0 ops (params_valid_ok P HPv) HE HW) as (I & S & _).
+  destruct (reach0 P b t0 ops (params_valid_ok P HPv) HE HW) as (I & S & _).
   destruct (J_reach P b t0 ops (params_valid_ok P HPv) HE HW HT) as (Hh & _).
   assert (Hp : G.invb true (G.prep (M.st_height s) (abs_o rk hl rs oth s)) = true).
   { apply GP.htlc_prep_inv_lemma.
@@ -608,7 +644,7 @@ Qed.
 (** ** the known finding at the message level: WITH a parameter change in the history the statement fails.  An
     incoming transfer of 200 is opened, then the authority deactivates the asset (the model's [SetParams]
     accepts the set, as Keeper.SetParams does): the export of the abstraction validates and its import panics
-    (ValidateLiveAsset).  This is why the theorems above are stated for [wf_op] histories. *)
+    (ValidateLiveAsset).  This is why the theorems above are stated for [wf0] histories. *)
 Definition ex_P_inactive : list M.aparam := [M.mkAP 0 1000 true 500 (60 * M.ns) false 3 1 1 400 50 100].
 Theorem htlc_history_param_change_refuted :
   let ops := [ M.Create (M.mkCreate 3 0 [(0, 200)] (8, 1700000000) 1700000000 50 true); M.SetParams M.GOV ex_P_inactive ] in
